@@ -7,6 +7,52 @@ NOTES = ("All checks: ./check <ID> [--tier quick|thorough]; seed from VERIF_SEED
 NOT_APPLICABLE = {}
 
 CHECKS = {
+ "C02": {
+  "level": "exploration",
+  "technique": "property-based testing: generated programs with cycles through negation, 3-way classification by a reference well-founded semantics",
+  "text": "Generated programs with negation inside recursive SCCs are classified by the reference (must-reject / must-answer / either) from "
+          "the well-founded model of every world; ProbLog must raise a GroundingError, answer with the reference numbers, or either.",
+  "note": "Trusts the reference WFS (alternating fixpoint over world bitmasks); must-reject is conservative; listed engine defects F-ENG-1..5 are excluded by (signature, class).",
+ },
+ "C03": {
+  "level": "exploration",
+  "technique": "property-based testing over schedules: seeded permutation of sibling eval-message batches, differential vs the unpermuted run",
+  "text": "For each generated program several Hypothesis-drawn schedule seeds permute every all-'e' message batch of the buffered engine "
+          "(through the documented init_message_stack extension point); probabilities, reported instances and error class must equal the unpermuted run.",
+  "note": "Differential between two runs of the real engine; the permutation acts where the engine pushes sibling goals. Order-dependent NegativeCycle/AssertionError (F-ENG-1/2) are listed findings.",
+ },
+ "C04": {
+  "level": "exploration",
+  "technique": "property-based differential testing: unbuffered / rc-first / seeded random-order engines vs the default engine, plus the repository corpus",
+  "text": "Generated programs and every test/*.pl file are evaluated with the unbuffered, rc-first and documented random-order engines and compared with the default engine (instance mode, lists as multisets).",
+  "note": "The unbuffered modes are broken for recursive programs on the unchanged tree (F-UNB-1, about 3.5% of generated programs) and on 7 corpus files (F-UNB-2); those classes are excluded for accept/reject mismatches only.",
+ },
+ "C06": {
+  "level": "exploration",
+  "technique": "metamorphic property-based testing: option sets and evidence-syntax rewrites vs the run without options",
+  "text": "Each generated program is evaluated under several drawn option sets (propagate_evidence, propagate_weights, label_all, avoid_name_clash, keep_order, keep_all, "
+          "keep_duplicates, hide_builtins, logspace, evidence syntax) and must give the same probabilities and accept/reject decision; keep_all is additionally checked on its documented route (ground, export, re-evaluate).",
+  "note": "Probability mode (zero entries dropped). Direct evaluation of keep_all formulas is a listed finding (F-OPT-1).",
+ },
+ "C07": {
+  "level": "exploration",
+  "technique": "metamorphic property-based testing: permuted statements and rule bodies vs the original text",
+  "text": "Statement order and body-literal order (negative literals kept after their binders) of generated programs are permuted; probabilities, reported instances and accept/reject must not change.",
+  "note": "Metamorphic between two runs of the real code; engine findings F-ENG-1..4 excluded by (signature, class).",
+ },
+ "C15": {
+  "level": "exploration",
+  "technique": "bounded-exhaustive enumeration of term pairs/triples + Hypothesis lists against a reference standard-order comparator and order laws",
+  "text": "All ordered pairs of a 237-term universe through the 7 comparison builtins and compare/3 against the reference order; all triples of a 51-term universe for "
+          "totality/antisymmetry/transitivity; enumerated and random lists through sort/2.",
+  "note": "Reference comparator is a transcription of the ISO/SWI standard order (no SWI binary in the sandbox); strings excluded; quoted-atom findings F-C15-3/4 excluded by class.",
+ },
+ "C33": {
+  "level": "exploration",
+  "technique": "property-based testing: generated indexed rule sets vs the first-applicable-rule reference (numeric index order)",
+  "text": "Rule sets r(I,...) with indices 1..15 in shuffled file order, applicability by head constants and body tests; cut/1 and cut/2 must give the answers (and index) of the applicable rule with the smallest index.",
+  "note": "'answers of rule I' are taken from the direct call r(I,Args) in the same program; clause/2 crash on repeated call variables is a listed finding (F-C33-1).",
+ },
  "C01": {
   "level": "exploration",
   "technique": "property-based testing: Hypothesis-generated programs vs an independent possible-world enumerator (exact rationals)",
